@@ -57,6 +57,11 @@ func main() {
 		return
 	}
 
+	if *prop == "ALL" {
+		// evaluation helper (not used by MANIFEST commands): one load, every property's quick check, shared
+		// analysis caches; prints one summary line per property and the usual VIOLATION lines
+		os.Exit(runAll(*repo, *verif))
+	}
 	pr := rules.Get(*prop)
 	if pr == nil {
 		fmt.Printf("CHECKER-ERROR unknown or unclaimed property %q (claimed: %s)\n", *prop, strings.Join(rules.IDs(), " "))
@@ -109,6 +114,43 @@ func main() {
 	}
 	pprof.StopCPUProfile()
 	os.Exit(code)
+}
+
+// runAll runs the quick check of every claimed property on one loaded program.
+func runAll(repo, verif string) int {
+	known, err := core.LoadKnown(filepath.Join(verif, "known_findings.json"))
+	if err != nil {
+		fmt.Println("CHECKER-ERROR known_findings.json:", err)
+		return 2
+	}
+	p, err := load.Load(repo, load.Config{}, nil)
+	if err != nil {
+		fmt.Printf("CHECKER-ERROR %v\n", err)
+		for _, id := range rules.IDs() {
+			fmt.Printf("VIOLATION property=%s replay=none (the tree does not load/type-check)\n", id)
+		}
+		return 1
+	}
+	cache := map[string]interface{}{}
+	code := 0
+	for _, id := range rules.IDs() {
+		pr := rules.Get(id)
+		start := time.Now()
+		res := &core.Result{Prop: id, Tier: "quick", Start: start, Explain: pr.Explain, Trusted: pr.Trusted}
+		for _, r := range pr.Rules {
+			res.Rules = append(res.Rules, core.RuleInfo{Name: r.Name, Doc: r.Doc})
+		}
+		c := core.NewCtx(p, id, "quick")
+		c.Cache = cache
+		for _, r := range pr.Rules {
+			rules.RunRule(c, r)
+		}
+		res.Merge(c, "host")
+		if rc := res.Finish(verif, known); rc != 0 {
+			code = 1
+		}
+	}
+	return code
 }
 
 func envOr(k, d string) string {
